@@ -18,6 +18,26 @@ CLAIMS = {
         "witness against the oracle on the same domain, random larger instances under ASan/UBSan.",
    technique="Lean 4 theorems (complement algebra, CTU oracle = Mathlib TU) + exhaustive small-domain correspondence against the real library",
    design="5/C15"),
+ "C13": dict(
+   text="Proof: binary pivot = GF(2) basis exchange and an involution; ternary pivot = GF(3) exchange with the pivot column negated; "
+        "pivoting twice = negating the pivot row and column; sequences are the left fold and reject zero pivots; the regular pivot returns a "
+        "matrix iff the rational pivot stays ternary (then equal to the GF(3) pivot) and otherwise names a 2x2 submatrix with |det|>=2 — all "
+        "for every shape and position. Tie: exact equality of CMRchrmat{Binary,Ternary,Regular}Pivot(s) with the model on every (zero and "
+        "nonzero) position of exhaustive small domains and on seeded sequences. TU/regularity preservation by pivots is classical and not "
+        "proved here (tested in C10).",
+   technique="Lean 4 theorems about the pivot model + exhaustive small-domain exact correspondence", design="5/C13"),
+ "C01": dict(
+   text="Proof: the verdict demanded by the judge, isTU, is proved equal to Mathlib's Matrix.IsTotallyUnimodular for every shape (via "
+        "detL = Matrix.det and reduction to strictly monotone index maps); non-ternary entries refute TU; empty shapes are TU; transposition "
+        "invariance. The contract has no algorithm/parameter argument, so every algorithm x option mask must return this value. Tie: CMRtuTest "
+        "under all three algorithms on exhaustive small ternary/binary domains and under the option product on seeded 3x3..7x7 matrices, "
+        "ASan/UBSan. Correctness of Seymour's decomposition algorithm itself is not modelled.",
+   technique="Lean 4 proof that the brute-force oracle is Mathlib's IsTotallyUnimodular + exhaustive/option-product correspondence", design="5/C01"),
+ "C07": dict(
+   text="Proof: a submatrix accepted by validViolator (in range, duplicate-free, |detL|>=2) refutes TU in Mathlib's sense; minimalViolator "
+        "gives det=+-2 and TU of every one-row-one-column deletion. Tie: every 'no' of CMRtuTest with a submatrix requested (greedy and "
+        "naive search, three algorithms, option masks) is validated by these deciders on the C01 domains.",
+   technique="Lean 4 certificate-checker soundness theorems + validation of every returned violator", design="5/C07"),
 }
 
 def main():
